@@ -146,6 +146,11 @@ theorem c02_model_checks {V : Type} [BEq V] [ReflBEq V] (F : Facts) (hwf : WF F 
             exact absurd (hdoc _ hdc) hc
         simp [observe, checkObs, hnd]
 
+end Glom.Props.C02
+
+namespace Glom.C02.Examples
+open Glom Glom.C02 Glom.Props.C02
+
 /-! ### non-vacuity: concrete inputs meet every hypothesis; counter-examples without them -/
 
 /-- toy values: numbers, and a glom `T` object stored as *data* inside the target -/
@@ -218,6 +223,24 @@ example : refEval (toyPrim plain) (.texpr [("__floordiv__", .lit (.n 0))]) (.n 7
 def droppedFacts : Facts :=
   { genFacts with dispatch := genFacts.dispatch.filter (fun en => en.1 != "#") }
 
+/-! #### without `hplain`: `T[1](T[2])` on a target whose items are `T` objects -/
+
+def dblE : E TV :=
+  .texpr [("__getitem__", .lit (.n 1)),
+          ("__call__", .cargs [.texpr [("__getitem__", .lit (.n 2))]] [])]
+
+def dblO : C02.Obj TV :=
+  .tt [.root "T", .opc "[", .lit (.n 1), .opc "(",
+       .cargs [.tt [.root "T", .opc "[", .lit (.n 2)]] []]
+
+end Glom.C02.Examples
+
+namespace Glom.Props.C02
+open Glom Glom.C02 Glom.C02.Examples
+
+/-- Without `WF` the conclusion of `c02_replay` fails: with the branch table of the tree
+    before commit e2222c4 the expression `T // 2` is recorded as `'#'`, the model of
+    `_t_eval` returns the target 7 unchanged (no error), the chain applied directly gives 3. -/
 theorem c02_wf_counterexample :
     WF droppedFacts = false ∧
     record droppedFacts (toyPrim plain).none (.texpr [("__floordiv__", .lit (.n 2))])
@@ -235,16 +258,6 @@ theorem c02_wf_counterexample :
       Generated.tDispatch]
   · simp [refEval_texpr, refStep, arglessDunders, meaning, meaningTable, foldSteps, pyApply,
       toyPrim, refArg]
-
-/-! #### without `hplain`: `T[1](T[2])` on a target whose items are `T` objects -/
-
-def dblE : E TV :=
-  .texpr [("__getitem__", .lit (.n 1)),
-          ("__call__", .cargs [.texpr [("__getitem__", .lit (.n 2))]] [])]
-
-def dblO : C02.Obj TV :=
-  .tt [.root "T", .opc "[", .lit (.n 1), .opc "(",
-       .cargs [.tt [.root "T", .opc "[", .lit (.n 2)]] []]
 
 /-- Applying the chain directly gives `target[1](target[2])`, the stored object;
     `_t_eval` gives the *target*: `Call.glomit` evaluated the stored `T` object a
